@@ -56,13 +56,17 @@ class UMNDirHandler(DirHandler):
             # If the parent says it's OK, then let's see if it's
             # a link file.  If yes, process it and return false.
             if file[0] == ".":
-                if not self.vfs.isdir(self.selectorbase + "/" + file):
-                    self.linkentries.extend(
-                        self.processLinkFile(self.selectorbase + "/" + file)
-                    )
-                    return False
-                else:
-                    return False  # A "dot dir" -- ignore.
+                # Only regular files can be link files: a "dot dir", a
+                # dangling link, a FIFO or a socket is ignored, and so is
+                # a link file that cannot be read (any more).
+                if self.vfs.isfile(self.selectorbase + "/" + file):
+                    try:
+                        self.linkentries.extend(
+                            self.processLinkFile(self.selectorbase + "/" + file)
+                        )
+                    except IOError:
+                        pass
+                return False
             return True  # Not a dot file -- return true
         else:
             return False  # Parent returned 0, do the same.
